@@ -56,6 +56,7 @@ type recv struct {
 	noCancel  bool // context.Background(): the range-over-channel branch of Receive
 	slow      bool
 	cancel    context.CancelFunc
+	ctx       context.Context // the context handed to Receive
 	confirmed chan struct{}
 
 	mu   sync.Mutex
@@ -110,9 +111,13 @@ type scen struct {
 	final     string // close | cancel
 	kill      bool
 	seed      int64
+	flavor    string // set by the constructed histories (backlog_test.go): their own description
 }
 
 func (sc scen) String() string {
+	if sc.flavor != "" {
+		return sc.flavor
+	}
 	return fmt.Sprintf("#%d resp2=%v queue=%s chunk=%v retry=%v initial=%d rounds=%d dedicated=%q final=%s kill=%v", sc.idx, sc.resp2, sc.queue, sc.chunk, sc.retry, sc.initial, sc.rounds, sc.dedicated, sc.final, sc.kill)
 }
 
@@ -299,6 +304,11 @@ func markerFor(kind string, id int) string {
 
 // startRecv starts one Receive on c (the shared client or a dedicated one). deadline > 0 ends its context by deadline.
 func (w *world) startRecv(c rueidis.CoreClient, api, kind string, chans []string, noCancel, slow bool, deadline time.Duration) *recv {
+	return w.startRecvX(c, api, kind, chans, noCancel, slow, deadline, nil)
+}
+
+// startRecvX is startRecv with a consumer of the caller's choice: consume(n) runs inside the callback of the n-th message.
+func (w *world) startRecvX(c rueidis.CoreClient, api, kind string, chans []string, noCancel, slow bool, deadline time.Duration, consume func(n int)) *recv {
 	w.mu.Lock()
 	w.nextID++
 	id := w.nextID
@@ -327,6 +337,7 @@ func (w *world) startRecv(c rueidis.CoreClient, api, kind string, chans []string
 		}
 	})
 	cmd := subscribeCmd(c, kind, r.chans)
+	r.ctx = ctx
 	w.mu.Lock()
 	w.recvs = append(w.recvs, r)
 	w.mu.Unlock()
@@ -337,7 +348,11 @@ func (w *world) startRecv(c rueidis.CoreClient, api, kind string, chans []string
 			r.mu.Lock()
 			r.got = append(r.got, delivered{mon.Stamp(), m})
 			r.mu.Unlock()
-			if n++; slow && n%7 == 3 {
+			n++
+			if consume != nil {
+				consume(n)
+			}
+			if slow && n%7 == 3 {
 				// a slow consumer: it stalls until 24 more messages have been published (or the publish phase is over), so its
 				// 16-slot channel fills up and the connection's reader has to wait for it. Not a virtual sleep: the reader holds
 				// subs' RWMutex while it hands a message over, a goroutine waiting for that mutex is not durably blocked, and
@@ -1196,12 +1211,13 @@ func TestC26(t *testing.T) {
 	n := run.N(300, 6000)
 	rng := run.Rand("scenarios")
 	var st stats
+	frozenBubbles := 0
 	for i := 0; i < n; i++ {
 		sc := scen{idx: i, resp2: i%3 == 2, queue: []string{"flowbuffer", "ring"}[rng.Intn(2)], chunk: rng.Intn(2) == 0, retry: rng.Intn(5) == 0, initial: 1 + rng.Intn(8), rounds: 1 + rng.Intn(3),
 			dedicated: []string{"", "hooks", "receive"}[rng.Intn(3)], final: []string{"close", "cancel"}[rng.Intn(2)], kill: rng.Intn(4) == 0, seed: run.Seed*100000 + int64(i)}
 		var w *world
 		var pan any
-		dl, stacks := drv.Bubble(t, func() {
+		dl, stacks, frozen := bubbleFZ(t, func() {
 			defer func() {
 				if p := recover(); p != nil {
 					pan = p
@@ -1213,6 +1229,21 @@ func TestC26(t *testing.T) {
 		})
 		if pan != nil {
 			run.Violation("panic", "scenario", map[string]any{"scenario": sc.String(), "panic": fmt.Sprint(pan)})
+			continue
+		}
+		if frozen {
+			// every goroutine of the bubble is blocked, one of them on a lock: synctest cannot name that state (see bubbleFZ)
+			frames := drv.RueidisFrames(stacks)
+			rs, rf := goroutineIn(stacks, "rueidis.(*pipe).Receive(")
+			ps, pf := goroutineIn(stacks, "rueidis.(*subs).Publish(")
+			if len(frames) == 0 {
+				run.Inconclusive("bubble stands still without rueidis frames (harness): " + sc.String())
+			} else {
+				run.Violation("hang-or-leak", fmt.Sprintf("workload|frozen|resp2=%v|Receive:%s[%s]|reader:%s[%s]", sc.resp2, rf, rs, pf, ps), map[string]any{"scenario": sc.String(), "frozen_bubble": true, "rueidis_frames": frames, "stacks": drv.Tail(stacks, 16000)})
+			}
+			if frozenBubbles++; frozenBubbles >= 3 {
+				break
+			}
 			continue
 		}
 		if dl != "" {
@@ -1235,6 +1266,7 @@ func TestC26(t *testing.T) {
 			run.Sample(map[string]any{"scenario": sc.String(), "receives": len(w.recvs), "published": w.published.Load(), "echo_ok": w.echoOK.Load()})
 		}
 	}
+	checkBacklog(t, run, &st)
 	checkLostHooks(run)
 	checkWedge(t, run) // last: its bubbles end wedged and leave parked goroutines behind
 	run.Observe("receives", int64(st.receives))
@@ -1255,5 +1287,5 @@ func TestC26(t *testing.T) {
 	run.Observe("histories_with_kill", int64(st.killed))
 	run.Observe("slow_consumer_stalls", int64(st.stalls))
 	run.Require("receives", "hooks_sessions", "messages_delivered", "messages_required", "returned_nil_on_unsubscribe", "returned_ErrClosing", "returned_ctx_error", "returned_connection_error",
-		"receives_overlapping_another", "hook_channels_drained", "echo_replies_checked", "wedge_probe_runs", "wedge_probe_clean", "receives_confirmed_by_subscription_hook", "slow_consumer_stalls", "lost_connection_hook_histories", "lost_connection_channels_drained", "lost_connection_channels_with_one_error")
+		"receives_overlapping_another", "hook_channels_drained", "echo_replies_checked", "wedge_probe_runs", "wedge_probe_clean", "receives_confirmed_by_subscription_hook", "slow_consumer_stalls", "backlog_context_ended_with_reader_parked_in_publish", "backlog_receive_returned", "lost_connection_hook_histories", "lost_connection_channels_drained", "lost_connection_channels_with_one_error")
 }
